@@ -58,6 +58,7 @@ fn work_chunk(types: &[Ty]) -> Value {
 fn main() {
     let mut run = vcommon::Run::from_args("C04", "exploration");
     vcommon::install_quiet_panic_hook();
+    tune_allocator();
 
     if let Some(d) = run.replay_detail() {
         if let Some(p) = d["pair"].as_array() {
